@@ -467,9 +467,17 @@ def PredRecord.ofConfig (rate : α → α → α) (su : SpeedUnit) (gu : GradeUn
     idealRate := match ideal with | some x => x | none => findMinEnergyRate sweep,
     adjustment := match adj with | some a => a | none => one }
 
-/-- `build_battery_electric` / `build_plugin_hybrid`: the vehicle starts full
-(`starting_battery_energy = battery_capacity`), capacity and unit as configured -/
-def Battery.ofConfig (capacity : α) (unit : EnergyUnit) : Battery α :=
+/-- `build_battery_electric` / `build_plugin_hybrid`: a `battery_capacity` that is not a (finite)
+positive number is a configuration error; otherwise the vehicle starts full
+(`starting_battery_energy = battery_capacity`), capacity and unit as configured.  (NaN and the
+infinities cannot be written in the JSON the builders read; they arrive as `null`, which does not
+deserialise: `configReadable`.) -/
+def Battery.ofConfig (capacity : α) (unit : EnergyUnit) : Except Err (Battery α) :=
+  if (zero : α) < capacity then .ok { capacity := capacity, startEnergy := capacity, unit := unit }
+  else .error .build
+
+/-- `BEV::new` / `PHEV::new` called directly (not through the builders) take any capacity -/
+def Battery.unchecked (capacity : α) (unit : EnergyUnit) : Battery α :=
   { capacity := capacity, startEnergy := capacity, unit := unit }
 
 /-- a configuration the builders cannot read — unknown vehicle or time-model type, a missing required
